@@ -195,6 +195,11 @@ func RunC09(r *core.Rng, run uint64, seed uint64, tier string, cov *Cov) []*Viol
 	// stray race header lines: whatever happens to them (KF-1) must not depend
 	// on the delivery either
 	cfg.ExactRaceSep = r.Chance(0.15)
+	// text right after the last frame that reads as a continuation of the dump
+	cfg.UnsafeAfterFrame = r.Chance(0.25)
+	if cfg.UnsafeAfterFrame {
+		cfg.Lookalike = true
+	}
 	doc := gen.Generate(r, cfg)
 	if r.Chance(0.12) && gen.Malform(r, doc) {
 		// a dump the scanner must reject: the error path, too, must not depend
